@@ -432,7 +432,7 @@ package yang
 //@ spec fullName(s *Module) string = current(s) == "" ? s.Name : s.Name + "@" + current(s)
 //@ pred revsOK(s *Module) = s != nil && (forall i int :: 0 <= i && i < len(s.Revision) ==> s.Revision[i] != nil)
 //
-//@ func (*Modules).add props C13 C03 C05
+//@ func (*Modules).add props C13 C03 C05 C18
 //@   props_of no-false-duplicate C13 C05
 //@   requires ms != nil && ms.Modules != nil && ms.SubModules != nil && n != nil && !typeis(n, *Statement)
 //@   requires typeis(n, *Module) ==> asptr(n, *Module) != nil && nodeName(n) == asptr(n, *Module).Name
@@ -447,6 +447,7 @@ package yang
 //@   ensures  typeis(n, *Module) && old(addMap(ms, n)[fullName(asptr(n, *Module))]) != nil ==> result != nil
 //@   ensures  typeis(n, *Module) && old(addMap(ms, n)[fullName(asptr(n, *Module))]) == nil ==> result == nil
 //@   ensures  result != nil ==> (forall k string :: ms.Modules[k] == old(ms.Modules[k]) && ms.SubModules[k] == old(ms.SubModules[k]))
+//@   ensures[a-module-that-is-filed-empties-what-the-namespace-lookup-remembers] result == nil ==> ms.byNS != nil && len(ms.byNS) == 0
 //@   ensures  result == nil ==> addMap(ms, n)[fullName(asptr(n, *Module))] == asptr(n, *Module)
 //@   ensures  result == nil ==> (forall k string :: k != fullName(asptr(n, *Module)) && k != asptr(n, *Module).Name ==> addMap(ms, n)[k] == old(addMap(ms, n)[k]))
 //@   ensures  result == nil && fullName(asptr(n, *Module)) != asptr(n, *Module).Name ==>
@@ -601,6 +602,7 @@ package yang
 //@   only before:
 //@   ensures ms.Modules == old(ms.Modules) && (forall k string :: old(ms.Modules[k]) != nil ==> ms.Modules[k] == old(ms.Modules[k]))   -- not claimed (only): assumed at call sites
 //@   before[per-run-state-is-reset-before-anything-of-a-run-reads-it] (*Modules).process ms.mergedSubmodule != nil && len(ms.mergedSubmodule) == 0 && ms.entryCache != nil && len(ms.entryCache) == 0
+//@   before[imports-and-includes-are-bound-afresh-by-every-run] (*Modules).process ms.includes != nil && len(ms.includes) == 0
 // process links every module of the set, whatever key it is filed under (a
 // module with a revision is filed under two keys, an older revision of a name
 // under its full name only): all of them are collected, and every collected
@@ -616,8 +618,8 @@ package yang
 // resolved-type fields only.
 //@ func (*Modules).ClearEntryCache props C18 C01
 //@   requires ms != nil
-//@   ensures  ms.entryCache != nil && len(ms.entryCache) == 0
-//@   modifies ms.entryCache
+//@   ensures  ms.entryCache != nil && len(ms.entryCache) == 0 && ms.mergedSubmodule != nil && len(ms.mergedSubmodule) == 0
+//@   modifies ms.entryCache, ms.mergedSubmodule
 //@   safe
 //@ func (*Modules).forgetResolvedTypes trusted
 //@   modifies Type.YangType, Type.resolveErrs, Typedef.YangType
